@@ -727,6 +727,11 @@ def do_replay(pid, path, log):
         rc = replay_pair(r['pair'], log)
         print('VIOLATION property=%s replay=%s' % (pid, path) if rc else 'the two cases take the same path')
         return rc
+    if r.get('wpair'):
+        from vprops import replay_wpair
+        rc = replay_wpair(r['wpair'], log)
+        print('VIOLATION property=%s replay=%s' % (pid, path) if rc else 'the two calls take the same path')
+        return rc
     if not case:
         print('replay file names a proof obligation / correspondence, not an input:', r.get('what'))
         return 0
